@@ -324,6 +324,16 @@ def nc_cases(rng):
     ds["data"].values[1, 1] = np.inf
     ds["conc"] = (("time", "species"), r.random((5, 2)))
     cases.append(("mixed dtypes, NaN/inf, integer and string coordinates, attributes", ds))
+    # files with exactly ONE data variable: measurement data carrying metadata attributes, and a result saved with a data filter
+    t = np.linspace(0, 1, 4)
+    s = np.array([600.0, 610.0, 625.0])
+    one = xr.DataArray(r.normal(size=(4, 3)), coords=[("time", t), ("spectral", s)]).to_dataset(name="data")
+    one.attrs.update({"instrument": "streak camera", "exposure": 0.25, "model_dimension": "time"})
+    one["data"].attrs["units"] = "counts"
+    cases.append(("one variable 'data' with dataset and variable attributes", one))
+    res = xr.DataArray(r.normal(size=(4, 3)), coords=[("time", t), ("spectral", s)]).to_dataset(name="residual")
+    res.attrs.update({"model_dimension": "time", "global_dimension": "spectral", "root_mean_square_error": 0.125, "dataset_scale": 2.0})
+    cases.append(("one variable 'residual' (a data-filtered result dataset) with attributes", res))
     return cases
 
 
@@ -407,7 +417,8 @@ def result_fixtures():
             model = build_model(spec)
             parameters = Parameters.from_dict(copy.deepcopy(pars))
             data = model_data(labels, 11)
-            scheme = Scheme(model, parameters, data, maximum_number_function_evaluations=nfev, optimization_method=method)
+            scheme = Scheme(model, parameters, data, maximum_number_function_evaluations=nfev, optimization_method=method,
+                            clp_link_tolerance=0.25, clp_link_method="forward", ftol=1e-7, gtol=1e-9, xtol=1e-6)
             with warnings.catch_warnings():
                 warnings.simplefilter("ignore")
                 return optimize(scheme, verbose=False, raise_exception=True)
